@@ -23,13 +23,18 @@ def series(ind, field=None):
     return out
 
 
-def run_batch(cfg, rows, prepare=None, inter=None, **extra):
+def run_batch(cfg, rows, prepare=None, inter=None, sibling_input=None, **extra):
     """-> (indicator, None) or (None, Violation).  inter: a maintenance operation after the first inter["at"] candles
     (the rest is then appended): by C14 it leaves the batch state, so the definitions apply unchanged"""
     try:
         candles = mk_candles(rows)
         if prepare:
             prepare(candles)
+        if sibling_input and cfg.get("kw", {}).get("input_value") not in (None, sibling_input):
+            # a sibling of the same class and parameters on another input, told apart only by fullname_override, is
+            # calculated on the same candles first: its helper series must not be mistaken for the judged indicator's
+            sib = build_indicator({"cls": cfg["cls"], "kw": dict(cfg["kw"], input_value=sibling_input)}, candles=candles, fullname_override="SIB")
+            sib.calculate()
         if inter and 0 < inter["at"] % (len(candles) + 1) < len(candles):
             k = inter["at"] % (len(candles) + 1)
             ind = build_indicator(cfg, candles=candles[:k], **extra)
